@@ -208,6 +208,21 @@ func (o *C02) Check(x *h.Exec, ev *h.Event) {
 			return walk(v)
 		case []lang.CodeLens:
 			return false // ranges supplied by the caller's lens functions
+		case lang.Candidates:
+			// the candidate kind is part of the shape: the ways an edit range is
+			// computed differ by kind (attribute names, object keys, functions,
+			// hook values ...), and a finding recorded for one must not cover another
+			for i, cd := range v.List {
+				if cl, d := j.check(q.Path, cd.TextEdit.Range); report(cl, fmt.Sprintf("Range:kind%d", cd.Kind), fmt.Sprintf("%s (candidate %d %q)", d, i, cd.Label)) {
+					return true
+				}
+				for _, te := range cd.AdditionalTextEdits {
+					if cl, d := j.check(q.Path, te.Range); report(cl, fmt.Sprintf("AdditionalTextEdits.Range:kind%d", cd.Kind), d) {
+						return true
+					}
+				}
+			}
+			return false
 		}
 		bad := false
 		deep.Ranges(r.Val, func(path string, rg hcl.Range) {
